@@ -427,6 +427,75 @@ fn udp_batch(rng: &mut Rng, inst: &Instance, bufs: &mut Buffers) -> Result<Strin
     Ok(format!("udp:socks{}:answered{}of{}", n_socks, if received == expected_total { "all".to_string() } else { "some".to_string() }, expected_total.min(6)))
 }
 
+/// A slow but legal client: request 1 arrives in two segments 3.2 s apart (inside the 5 s allowance
+/// for one message), then the connection idles 2.5 s before request 2. Each message has its own
+/// allowance, so both must be answered.
+fn slow_tcp(rng: &mut Rng, inst: &Instance, bufs: &mut Buffers) -> Result<String, (String, String, Json)> {
+    let r1 = gen_item(rng, inst, 0x5101, true, bufs, false);
+    let r2 = gen_item(rng, inst, 0x5102, true, bufs, false);
+    let (e1, e2) = match (&r1.expected, &r2.expected) {
+        (Some(a), Some(b)) => (a.clone(), b.clone()),
+        _ => return Err(("inconclusive".into(), "slow: generated request gets no response".into(), Json::Null)),
+    };
+    if r1.request.len() > 2000 || r2.request.len() > 2000 {
+        return Err(("inconclusive".into(), "slow: oversized request".into(), Json::Null));
+    }
+    let inc = |what: &str| ("inconclusive".to_string(), format!("slow: {}", what), Json::Null);
+    let mut sock = TcpStream::connect_timeout(&inst.connect_addr, Duration::from_secs(5)).map_err(|_| inc("connect"))?;
+    let _ = sock.set_nodelay(true);
+    let _ = sock.set_read_timeout(Some(Duration::from_secs(4)));
+    let mut framed1 = (r1.request.len() as u16).to_be_bytes().to_vec();
+    framed1.extend_from_slice(&r1.request);
+    let cut = rng.range(1, framed1.len() - 1);
+    let t0 = std::time::Instant::now();
+    sock.write_all(&framed1[..cut]).map_err(|_| inc("write"))?;
+    std::thread::sleep(Duration::from_millis(3200));
+    sock.write_all(&framed1[cut..]).map_err(|_| inc("write"))?;
+    let t1 = t0.elapsed();
+    let read_exact = |sock: &mut TcpStream, n: usize| -> Result<Vec<u8>, String> {
+        let mut v = vec![0u8; n];
+        let mut got = 0;
+        while got < n {
+            match sock.read(&mut v[got..]) {
+                Ok(0) => return Err(format!("connection closed after {} of {} octets", got, n)),
+                Ok(k) => got += k,
+                Err(e) => return Err(format!("read error after {} of {} octets: {}", got, n, e)),
+            }
+        }
+        Ok(v)
+    };
+    let w = |what: &str| Json::obj(vec![("provider", Json::s(inst.kind.clone())), ("request_1", Json::hex(&r1.request)), ("request_2", Json::hex(&r2.request)), ("what", Json::s(what))]);
+    if t1 > Duration::from_millis(4300) {
+        return Err(inc("the first request took too long to write"));
+    }
+    let mut want1 = (e1.len() as u16).to_be_bytes().to_vec();
+    want1.extend_from_slice(&e1);
+    match read_exact(&mut sock, want1.len()) {
+        Ok(got) if got == want1 => {}
+        Ok(_) => return Err(("tcp:slow:response-differs".into(), "response to a request delivered in two segments 3.2 s apart differs".into(), w("first"))),
+        Err(e) => return Err(("tcp:slow:first-unanswered".into(), format!("request delivered in two segments {:.1} s apart (read timeout 5 s): {}", t1.as_secs_f64(), e), w("first"))),
+    }
+    let idle_from = std::time::Instant::now();
+    std::thread::sleep(Duration::from_millis(2500));
+    let mut framed2 = (r2.request.len() as u16).to_be_bytes().to_vec();
+    framed2.extend_from_slice(&r2.request);
+    let write2 = sock.write_all(&framed2);
+    let idle = idle_from.elapsed();
+    if idle > Duration::from_millis(4300) {
+        return Err(inc("the idle period overshot"));
+    }
+    let mut want2 = (e2.len() as u16).to_be_bytes().to_vec();
+    want2.extend_from_slice(&e2);
+    if write2.is_err() {
+        return Err(("tcp:slow:second-unanswered".into(), format!("the connection was gone after {:.1} s of idling (each message has its own 5 s allowance)", idle.as_secs_f64()), w("second")));
+    }
+    match read_exact(&mut sock, want2.len()) {
+        Ok(got) if got == want2 => Ok("tcp:slow".into()),
+        Ok(_) => Err(("tcp:slow:response-differs".into(), "response to the request after the idle period differs".into(), w("second"))),
+        Err(e) => Err(("tcp:slow:second-unanswered".into(), format!("request sent after {:.1} s of idling, following a request that took {:.1} s to arrive: {}", idle.as_secs_f64(), t1.as_secs_f64(), e), w("second"))),
+    }
+}
+
 pub fn run(ctx: &Ctx, rep: &mut Report) {
     let instances = ctx.cases(32, 160);
     let batches = if ctx.thorough { 60 } else { 12 };
@@ -443,6 +512,23 @@ pub fn run(ctx: &Ctx, rep: &mut Report) {
         };
         let mut bufs = Buffers::new(inst.payload);
         std::thread::sleep(Duration::from_millis(30));
+        if case < 2 && ctx.only_case.is_none() || ctx.only_case == Some(case) && case < 2 {
+            // one slow client per provider kind and shard (about 6 s of real time)
+            rep.eval();
+            match slow_tcp(&mut rng, &inst, &mut bufs) {
+                Ok(class) => {
+                    rep.class(&format!("{}:{}", inst.kind.split(':').next().unwrap_or(""), class));
+                    rep.hist(&format!("{}:slow-clients", inst.kind.split(':').next().unwrap_or("")));
+                }
+                Err((sig, detail, w)) => {
+                    if sig == "inconclusive" {
+                        rep.hist(&format!("inconclusive:{}", detail.split(':').next().unwrap_or("")));
+                    } else {
+                        rep.violation(format!("c30:{}:{}", inst.kind.split(':').next().unwrap_or(""), sig), format!("{} [{}]", detail, inst.kind), w);
+                    }
+                }
+            }
+        }
         for _ in 0..batches {
             for tcp in [true, false] {
                 rep.eval();
